@@ -19,10 +19,12 @@ package main
 // g.fail (never guessed).
 
 import (
+	"encoding/hex"
 	"fmt"
 	"go/ast"
 	"go/token"
 	"sort"
+	"strconv"
 	"strings"
 	"unicode"
 )
@@ -176,51 +178,212 @@ func switchCaseIdents(fd *ast.FuncDecl) ([]string, bool) {
 	return ids, true
 }
 
+// stringItemTable: a `map[string]itemType` variable, by pattern (the composite literal) and by
+// evaluation (the map of the compiled package), combined by g.choose.
+func (g *gen) stringItemTable(coqName, comment, goVar string, names []string, codes map[string]int, ev evalResult, everrs map[string]string) {
+	var keys []string
+	var vals map[string]string
+	perr := g.silent(func() { keys, vals = g.stringToItemMap(lexRel, goVar, codes) })
+	pat := ""
+	if len(perr) == 0 {
+		m := map[string]string{}
+		for _, k := range keys {
+			m[k] = fmt.Sprint(codes[vals[k]])
+		}
+		pat = canonMap(m)
+	}
+	evs, evKeys, evVals := "", []string(nil), map[string]string{}
+	var raw map[string]int
+	if ev.get(goVar, &raw) {
+		m := map[string]string{}
+		okAll := true
+		for hk, c := range raw {
+			kb, err := hexDecode(hk)
+			if err != nil || c < 0 || c >= len(names) {
+				okAll = false
+				break
+			}
+			m[kb] = fmt.Sprint(c)
+			evKeys = append(evKeys, kb)
+			evVals[kb] = names[c]
+		}
+		if okAll {
+			sort.Strings(evKeys)
+			evs = canonMap(m)
+		}
+	}
+	switch g.choose("parse/lexer.go "+goVar, pat, strings.Join(perr, "; "), evs, evErr(everrs, goVar)) {
+	case routePattern:
+		g.emitStringItemTable(coqName, comment, keys, vals)
+	case routeEval:
+		g.emitStringItemTable(coqName, comment, evKeys, evVals)
+	default:
+		g.emitStringItemTable(coqName, comment, nil, nil)
+	}
+}
+
+func hexDecode(s string) (string, error) {
+	bs, err := hex.DecodeString(s)
+	return string(bs), err
+}
+
+// itemSet decides one predicate over the item types: pat = the set the pattern route read (nil +
+// perr when it could not), the evaluation's set under evKey.  Returns the set (ascending codes) and
+// whether the pattern route's own rendering may be used.
+func (g *gen) itemSet(table, evKey string, pat []int, perr []string, n int, ev evalResult, everrs map[string]string) (set []int, usePattern, ok bool) {
+	pats := ""
+	if len(perr) == 0 && pat != nil {
+		pats = canonInts(pat)
+	}
+	evs := ""
+	var raw []int
+	if ev.get(evKey, &raw) {
+		if raw == nil {
+			raw = []int{}
+		}
+		evs = canonInts(raw)
+	}
+	switch g.choose(table, pats, strings.Join(perr, "; "), evs, evErr(everrs, evKey)) {
+	case routePattern:
+		s := append([]int{}, pat...)
+		sort.Ints(s)
+		return s, true, true
+	case routeEval:
+		s := append([]int{}, raw...)
+		sort.Ints(s)
+		return s, false, true
+	}
+	return nil, false, false
+}
+
+func contiguous(s []int) bool {
+	for i := 1; i < len(s); i++ {
+		if s[i] != s[i-1]+1 {
+			return false
+		}
+	}
+	return len(s) > 0
+}
+
+func namesOf(set []int, names []string) []string {
+	var out []string
+	for _, c := range set {
+		out = append(out, names[c])
+	}
+	return out
+}
+
 func (g *gen) lexerTables() {
-	_, codes := g.itemCodes()
+	names, codes := g.itemCodes()
 	if codes == nil {
 		return
 	}
-	keys, vals := g.stringToItemMap(lexRel, "builtinIdents", codes)
-	g.emitStringItemTable("builtin_idents", "parse/lexer.go builtinIdents", keys, vals)
-	keys, vals = g.stringToItemMap(lexRel, "arithmeticItemsBySymbol", codes)
-	g.emitStringItemTable("arith_items", "parse/lexer.go arithmeticItemsBySymbol", keys, vals)
+	n := len(names)
+	ev, everrs := g.evalParse()
+	g.stringItemTable("builtin_idents", "parse/lexer.go builtinIdents", "builtinIdents", names, codes, ev, everrs)
+	g.stringItemTable("arith_items", "parse/lexer.go arithmeticItemsBySymbol", "arithmeticItemsBySymbol", names, codes, ev, everrs)
 
 	// specialChars (parse/parse.go): map[itemType]string
 	g.p("(* parse/parse.go specialChars *)\n")
+	type scEnt struct {
+		name, val string
+	}
+	var scPat []scEnt
+	perr := g.silent(func() {
+		if cl, ok := g.varValue("parse/parse.go", "specialChars").(*ast.CompositeLit); ok {
+			seen := map[string]bool{}
+			for _, e := range cl.Elts {
+				kv, ok := e.(*ast.KeyValueExpr)
+				if !ok {
+					g.fail("specialChars: element is not key: value")
+					continue
+				}
+				id, ok1 := kv.Key.(*ast.Ident)
+				v, ok2 := strLit(kv.Value)
+				if !ok1 || !ok2 || codes[id.Name] == 0 || seen[id.Name] {
+					g.fail("specialChars: entry is not itemName: \"string\"")
+					continue
+				}
+				seen[id.Name] = true
+				scPat = append(scPat, scEnt{id.Name, v})
+			}
+		} else {
+			g.fail("specialChars: not a composite literal")
+		}
+	})
+	pats := ""
+	if len(perr) == 0 {
+		m := map[string]string{}
+		for _, e := range scPat {
+			m[fmt.Sprintf("%04d", codes[e.name])] = e.val
+		}
+		pats = canonMap(m)
+	}
+	evs := ""
+	var scEv []scEnt
+	var rawSC map[string]string
+	if ev.get("specialChars", &rawSC) {
+		m := map[string]string{}
+		okAll := true
+		var cs []int
+		byCode := map[int]string{}
+		for k, hv := range rawSC {
+			c, err1 := strconv.Atoi(k)
+			v, err2 := hexDecode(hv)
+			if err1 != nil || err2 != nil || c < 0 || c >= n {
+				okAll = false
+				break
+			}
+			m[fmt.Sprintf("%04d", c)] = v
+			cs = append(cs, c)
+			byCode[c] = v
+		}
+		if okAll {
+			sort.Ints(cs)
+			for _, c := range cs {
+				scEv = append(scEv, scEnt{names[c], byCode[c]})
+			}
+			evs = canonMap(m)
+		}
+	}
+	var scUse []scEnt
+	switch g.choose("parse/parse.go specialChars", pats, strings.Join(perr, "; "), evs, evErr(everrs, "specialChars")) {
+	case routePattern:
+		scUse = scPat
+	case routeEval:
+		scUse = scEv
+	}
 	var sc []string
 	scjs := map[string]string{}
-	if cl, ok := g.varValue("parse/parse.go", "specialChars").(*ast.CompositeLit); ok {
-		for _, e := range cl.Elts {
-			kv, ok := e.(*ast.KeyValueExpr)
-			if !ok {
-				g.fail("specialChars: element is not key: value")
-				continue
-			}
-			id, ok1 := kv.Key.(*ast.Ident)
-			v, ok2 := strLit(kv.Value)
-			if !ok1 || !ok2 || codes[id.Name] == 0 {
-				g.fail("specialChars: entry is not itemName: \"string\"")
-				continue
-			}
-			sc = append(sc, fmt.Sprintf("(%s, %s)", id.Name, coqBytes(v)))
-			scjs[id.Name] = v
-		}
-	} else {
-		g.fail("specialChars: not a composite literal")
+	for _, e := range scUse {
+		sc = append(sc, fmt.Sprintf("(%s, %s)", e.name, coqBytes(e.val)))
+		scjs[e.name] = e.val
 	}
+	sc = keepOrder("special_chars", sc)
 	g.p("Definition special_chars : list (N * bstr) := [%s].\n\n", strings.Join(sc, "; "))
 	g.js["special_chars"] = scjs
 
 	// endsTerm and its use in lexNegative
-	ids, ok := switchCaseIdents(g.method(lexRel, "itemType", "endsTerm"))
-	if !ok {
-		g.fail("itemType.endsTerm: not `switch t { case ...: return true }; return false`")
-	}
-	for _, id := range ids {
-		if _, ok := codes[id]; !ok {
-			g.fail("itemType.endsTerm: %s is not an itemType constant", id)
+	var ids []string
+	var patSet []int
+	perr = g.silent(func() {
+		var ok bool
+		ids, ok = switchCaseIdents(g.method(lexRel, "itemType", "endsTerm"))
+		if !ok {
+			g.fail("itemType.endsTerm: not `switch t { case ...: return true }; return false`")
 		}
+		patSet = []int{}
+		for _, id := range ids {
+			if c, ok := codes[id]; !ok {
+				g.fail("itemType.endsTerm: %s is not an itemType constant", id)
+			} else {
+				patSet = append(patSet, c)
+			}
+		}
+	})
+	set, usePat, _ := g.itemSet("parse/lexer.go itemType.endsTerm", "itemType.endsTerm", patSet, perr, n, ev, everrs)
+	if !usePat {
+		ids = keepOrder("ends_term_set", namesOf(set, names))
 	}
 	g.p("(* parse/lexer.go itemType.endsTerm: the lastEmit types after which '-' is the binary operator;\n   lexNegative tests `!lastType.endsTerm()` with lastType = l.lastEmit.typ *)\n")
 	g.p("Definition ends_term_set : list N := [%s].\n", strings.Join(ids, "; "))
@@ -230,45 +393,87 @@ func (g *gen) lexerTables() {
 
 	// isOp: itemNegate <= t && t <= itemElvis ; isCommandEnd: t > itemCommandEnd
 	lo, hi := "", ""
-	if fd := g.method(lexRel, "itemType", "isOp"); fd != nil && len(fd.Body.List) == 1 {
-		if r, ok := fd.Body.List[0].(*ast.ReturnStmt); ok && len(r.Results) == 1 {
-			if be, ok := r.Results[0].(*ast.BinaryExpr); ok && be.Op == token.LAND {
-				l, ok1 := be.X.(*ast.BinaryExpr)
-				h, ok2 := be.Y.(*ast.BinaryExpr)
-				if ok1 && ok2 && l.Op == token.LEQ && h.Op == token.LEQ && isIdent(l.Y, "t") && isIdent(h.X, "t") {
-					if a, ok := l.X.(*ast.Ident); ok {
-						lo = a.Name
-					}
-					if c, ok := h.Y.(*ast.Ident); ok {
-						hi = c.Name
+	patSet = nil
+	perr = g.silent(func() {
+		if fd := g.method(lexRel, "itemType", "isOp"); fd != nil && fd.Body != nil && len(fd.Body.List) == 1 {
+			recv := recvName(fd)
+			if r, ok := fd.Body.List[0].(*ast.ReturnStmt); ok && len(r.Results) == 1 && recv != "" {
+				if be, ok := r.Results[0].(*ast.BinaryExpr); ok && be.Op == token.LAND {
+					l, ok1 := be.X.(*ast.BinaryExpr)
+					h, ok2 := be.Y.(*ast.BinaryExpr)
+					if ok1 && ok2 && l.Op == token.LEQ && h.Op == token.LEQ && isIdent(l.Y, recv) && isIdent(h.X, recv) {
+						if a, ok := l.X.(*ast.Ident); ok {
+							lo = a.Name
+						}
+						if c, ok := h.Y.(*ast.Ident); ok {
+							hi = c.Name
+						}
 					}
 				}
 			}
 		}
-	}
-	if _, ok := codes[lo]; !ok || lo == "" {
-		g.fail("itemType.isOp: not `return itemA <= t && t <= itemB`")
+		cl, ok1 := codes[lo]
+		ch, ok2 := codes[hi]
+		if !ok1 || !ok2 || lo == "" || hi == "" {
+			g.fail("itemType.isOp: not `return itemA <= t && t <= itemB`")
+			return
+		}
+		patSet = []int{}
+		for c := cl; c <= ch; c++ {
+			patSet = append(patSet, c)
+		}
+	})
+	set, _, okSet := g.itemSet("parse/lexer.go itemType.isOp", "itemType.isOp", patSet, perr, n, ev, everrs)
+	g.p("(* itemType.isOp *)\n")
+	switch {
+	case okSet && contiguous(set):
+		lo, hi = names[set[0]], names[set[len(set)-1]]
+		g.p("Definition is_op (t : N) : bool := (%s <=? t) && (t <=? %s).\n", lo, hi)
+	case okSet:
+		// not a range of the const block any more: the set itself (the proofs that use the range break, as they should)
+		lo, hi = "", ""
+		g.p("Definition is_op (t : N) : bool := existsb (N.eqb t) [%s].\n", strings.Join(namesOf(set, names), "; "))
+	default:
 		lo, hi = "itemInvalid", "itemInvalid"
-	} else if _, ok := codes[hi]; !ok {
-		g.fail("itemType.isOp: not `return itemA <= t && t <= itemB`")
-		lo, hi = "itemInvalid", "itemInvalid"
+		g.p("Definition is_op (t : N) : bool := (%s <=? t) && (t <=? %s).\n", lo, hi)
 	}
-	g.p("(* itemType.isOp *)\nDefinition is_op (t : N) : bool := (%s <=? t) && (t <=? %s).\n", lo, hi)
 	ce := ""
-	if fd := g.method(lexRel, "itemType", "isCommandEnd"); fd != nil && len(fd.Body.List) == 1 {
-		if r, ok := fd.Body.List[0].(*ast.ReturnStmt); ok && len(r.Results) == 1 {
-			if be, ok := r.Results[0].(*ast.BinaryExpr); ok && be.Op == token.GTR && isIdent(be.X, "t") {
-				if a, ok := be.Y.(*ast.Ident); ok {
-					ce = a.Name
+	patSet = nil
+	perr = g.silent(func() {
+		if fd := g.method(lexRel, "itemType", "isCommandEnd"); fd != nil && fd.Body != nil && len(fd.Body.List) == 1 {
+			recv := recvName(fd)
+			if r, ok := fd.Body.List[0].(*ast.ReturnStmt); ok && len(r.Results) == 1 && recv != "" {
+				if be, ok := r.Results[0].(*ast.BinaryExpr); ok && be.Op == token.GTR && isIdent(be.X, recv) {
+					if a, ok := be.Y.(*ast.Ident); ok {
+						ce = a.Name
+					}
 				}
 			}
 		}
-	}
-	if _, ok := codes[ce]; !ok || ce == "" {
-		g.fail("itemType.isCommandEnd: not `return t > itemX`")
+		c, ok := codes[ce]
+		if !ok || ce == "" {
+			g.fail("itemType.isCommandEnd: not `return t > itemX`")
+			return
+		}
+		patSet = []int{}
+		for k := c + 1; k < n; k++ {
+			patSet = append(patSet, k)
+		}
+	})
+	set, _, okSet = g.itemSet("parse/lexer.go itemType.isCommandEnd", "itemType.isCommandEnd", patSet, perr, n, ev, everrs)
+	g.p("(* itemType.isCommandEnd *)\n")
+	switch {
+	case okSet && contiguous(set) && set[len(set)-1] == n-1 && set[0] > 0:
+		// an upper segment of the const block: `t > <the constant below it>`
+		ce = names[set[0]-1]
+		g.p("Definition is_command_end (t : N) : bool := %s <? t.\n\n", ce)
+	case okSet:
+		ce = ""
+		g.p("Definition is_command_end (t : N) : bool := existsb (N.eqb t) [%s].\n\n", strings.Join(namesOf(set, names), "; "))
+	default:
 		ce = "itemInvalid"
+		g.p("Definition is_command_end (t : N) : bool := %s <? t.\n\n", ce)
 	}
-	g.p("(* itemType.isCommandEnd *)\nDefinition is_command_end (t : N) : bool := %s <? t.\n\n", ce)
 	g.js["is_op_range"] = []string{lo, hi}
 	g.js["is_command_end_above"] = ce
 
@@ -413,71 +618,181 @@ func (g *gen) insideTagSymbols(codes map[string]int) {
 
 // ---------- helper predicates ----------
 
-// predExpr translates a boolean expression over the rune parameter p.
-func (g *gen) predExpr(fn, p string, e ast.Expr) string {
+// runePred is the graph of a translated predicate, kept next to its Coq text so that the
+// translation can be compared with the evaluation of the compiled function.
+type runePred func(r int64) bool
+
+// predExpr translates a boolean expression over the rune parameter p into Coq text and into the
+// function it denotes; known = the predicates translated so far.
+func (g *gen) predExpr(fn, p string, e ast.Expr, known map[string]runePred) (string, runePred) {
 	e = unparen(e)
+	bad := func(format string, args ...interface{}) (string, runePred) {
+		g.fail(format, args...)
+		return "false", func(int64) bool { return false }
+	}
 	switch x := e.(type) {
+	case *ast.Ident:
+		if x.Name == "true" || x.Name == "false" {
+			v := x.Name == "true"
+			return x.Name, func(int64) bool { return v }
+		}
+	case *ast.UnaryExpr:
+		if x.Op == token.NOT {
+			s, f := g.predExpr(fn, p, x.X, known)
+			return "(negb " + s + ")", func(r int64) bool { return !f(r) }
+		}
 	case *ast.BinaryExpr:
 		switch x.Op {
 		case token.LOR:
-			return "(" + g.predExpr(fn, p, x.X) + " || " + g.predExpr(fn, p, x.Y) + ")"
+			s1, f1 := g.predExpr(fn, p, x.X, known)
+			s2, f2 := g.predExpr(fn, p, x.Y, known)
+			return "(" + s1 + " || " + s2 + ")", func(r int64) bool { return f1(r) || f2(r) }
 		case token.LAND:
-			return "(" + g.predExpr(fn, p, x.X) + " && " + g.predExpr(fn, p, x.Y) + ")"
-		case token.EQL, token.LEQ, token.GEQ, token.LSS, token.GTR:
-			a, ok1 := g.predOperand(p, x.X)
-			c, ok2 := g.predOperand(p, x.Y)
+			s1, f1 := g.predExpr(fn, p, x.X, known)
+			s2, f2 := g.predExpr(fn, p, x.Y, known)
+			return "(" + s1 + " && " + s2 + ")", func(r int64) bool { return f1(r) && f2(r) }
+		case token.EQL, token.NEQ, token.LEQ, token.GEQ, token.LSS, token.GTR:
+			a, va, ok1 := g.predOperand(p, x.X)
+			c, vc, ok2 := g.predOperand(p, x.Y)
 			if !ok1 || !ok2 {
-				g.fail("%s: comparison operand is neither the rune parameter nor a character literal", fn)
-				return "false"
+				return bad("%s: comparison operand is neither the rune parameter nor a character literal", fn)
 			}
-			op := map[token.Token]string{token.EQL: "=?", token.LEQ: "<=?", token.GEQ: ">=?", token.LSS: "<?", token.GTR: ">?"}[x.Op]
-			return "(" + a + " " + op + " " + c + ")"
+			op := x.Op
+			f := func(r int64) bool {
+				l, h := va(r), vc(r)
+				switch op {
+				case token.EQL:
+					return l == h
+				case token.NEQ:
+					return l != h
+				case token.LEQ:
+					return l <= h
+				case token.GEQ:
+					return l >= h
+				case token.LSS:
+					return l < h
+				}
+				return l > h
+			}
+			if op == token.NEQ {
+				return "(negb (" + a + " =? " + c + "))", f
+			}
+			cop := map[token.Token]string{token.EQL: "=?", token.LEQ: "<=?", token.GEQ: ">=?", token.LSS: "<?", token.GTR: ">?"}[op]
+			return "(" + a + " " + cop + " " + c + ")", f
 		}
 	case *ast.CallExpr:
 		if len(x.Args) == 1 && isIdent(x.Args[0], p) {
-			if id, ok := x.Fun.(*ast.Ident); ok && g.funcDecl(lexRel, id.Name) != nil {
-				if id.Name == "isAlphaNumeric" {
-					return "(gen_isAlphaNumeric uni_letter uni_digit " + p + ")"
+			if id, ok := x.Fun.(*ast.Ident); ok {
+				if f, ok := known[id.Name]; ok {
+					if id.Name == "isAlphaNumeric" {
+						return "(gen_isAlphaNumeric uni_letter uni_digit " + p + ")", f
+					}
+					return "(gen_" + id.Name + " " + p + ")", f
 				}
-				return "(gen_" + id.Name + " " + p + ")"
 			}
 			if isSel(x.Fun, "unicode", "IsLetter") {
-				return "(uni_letter " + p + ")"
+				return "(uni_letter " + p + ")", func(r int64) bool { return r >= -0x80000000 && r <= 0x7fffffff && unicode.IsLetter(rune(r)) }
 			}
 			if isSel(x.Fun, "unicode", "IsDigit") {
-				return "(uni_digit " + p + ")"
+				return "(uni_digit " + p + ")", func(r int64) bool { return r >= -0x80000000 && r <= 0x7fffffff && unicode.IsDigit(rune(r)) }
 			}
 		}
 	}
-	g.fail("%s: expression shape not translatable", fn)
-	return "false"
+	return bad("%s: expression shape not translatable", fn)
 }
 
-func (g *gen) predOperand(p string, e ast.Expr) (string, bool) {
+func (g *gen) predOperand(p string, e ast.Expr) (string, func(int64) int64, bool) {
 	e = unparen(e)
 	if isIdent(e, p) {
-		return p, true
+		return p, func(r int64) int64 { return r }, true
 	}
 	if c, ok := charLit(e); ok {
-		return fmt.Sprintf("%d", c), true
+		v := int64(c)
+		return fmt.Sprintf("%d", c), func(int64) int64 { return v }, true
 	}
-	return "", false
+	return "", nil, false
 }
 
 func (g *gen) lexerPredicates() {
 	g.p("(* parse/lexer.go helper predicates, as boolean expressions over a rune (Z; eof = -1) *)\n")
 	srcs := map[string]string{}
+	known := map[string]runePred{}
+	ev, everrs := g.evalParse()
 	for _, name := range []string{"isSpace", "isEndOfLine", "isSpaceEOL", "isLetterOrUnderscore", "isDigit", "isAlphaNumeric"} {
 		fd := g.funcDecl(lexRel, name)
 		body := "false"
 		p := "r"
-		if fd == nil || len(fd.Type.Params.List) != 1 || len(fd.Type.Params.List[0].Names) != 1 || len(fd.Body.List) != 1 {
-			g.fail("%s: not a one-parameter function with a single return", name)
-		} else if r, ok := fd.Body.List[0].(*ast.ReturnStmt); !ok || len(r.Results) != 1 {
-			g.fail("%s: body is not `return <expr>`", name)
-		} else {
+		if fd != nil && fd.Type.Params != nil && len(fd.Type.Params.List) == 1 && len(fd.Type.Params.List[0].Names) == 1 {
 			p = fd.Type.Params.List[0].Names[0].Name
-			body = g.predExpr(name, p, r.Results[0])
+		}
+		// pattern route: `return <expr>`
+		var patFn runePred
+		patBody := ""
+		perr := g.silent(func() {
+			if fd == nil || fd.Body == nil || fd.Type.Params == nil || len(fd.Type.Params.List) != 1 || len(fd.Type.Params.List[0].Names) != 1 || len(fd.Body.List) != 1 {
+				g.fail("%s: not a one-parameter function with a single return", name)
+			} else if r, ok := fd.Body.List[0].(*ast.ReturnStmt); !ok || len(r.Results) != 1 {
+				g.fail("%s: body is not `return <expr>`", name)
+			} else {
+				patBody, patFn = g.predExpr(name, p, r.Results[0], known)
+			}
+		})
+		pats := ""
+		if len(perr) == 0 && patFn != nil {
+			pats = fmt.Sprint(rangesOf(patFn))
+		}
+		// evaluation route: the graph of the compiled function over the rune domain
+		evs, everr := "", evErr(everrs, name)
+		var rs [][2]int
+		if ev.get(name, &rs) {
+			evs = fmt.Sprint(rs)
+			if name == "isAlphaNumeric" {
+				var canonical bool
+				if !ev.get("isAlphaNumeric.canonical", &canonical) || !canonical {
+					evs, everr = "", "isAlphaNumeric is not r == '_' || unicode.IsLetter(r) || unicode.IsDigit(r) on the rune domain (the model takes the two classes as parameters)"
+				}
+			} else if len(rs) > 64 {
+				evs, everr = "", "more than 64 ranges"
+			}
+		}
+		switch g.choose("parse/lexer.go "+name, pats, strings.Join(perr, "; "), evs, everr) {
+		case routePattern:
+			body = patBody
+			known[name] = patFn
+		case routeEval:
+			if name == "isAlphaNumeric" {
+				body = fmt.Sprintf("(((%s =? 95) || (uni_letter %s)) || (uni_digit %s))", p, p, p)
+			} else {
+				body = rangesExpr(p, rs)
+			}
+			rcopy := rs
+			known[name] = func(r int64) bool {
+				if r < runeDomLo || r > runeDomHi {
+					// outside the evaluated domain: continue the edge ranges
+					if r < runeDomLo {
+						return len(rcopy) > 0 && rcopy[0][0] <= runeDomLo
+					}
+					return len(rcopy) > 0 && rcopy[len(rcopy)-1][1] >= runeDomHi
+				}
+				for _, x := range rcopy {
+					if int64(x[0]) <= r && r <= int64(x[1]) {
+						return true
+					}
+				}
+				return false
+			}
+		}
+		if f := known[name]; f != nil {
+			preds := map[string]func(int64) bool{
+				"uni_letter": func(r int64) bool { return r >= -0x80000000 && r <= 0x7fffffff && unicode.IsLetter(rune(r)) },
+				"uni_digit":  func(r int64) bool { return r >= -0x80000000 && r <= 0x7fffffff && unicode.IsDigit(rune(r)) },
+			}
+			for k, kf := range known {
+				if k != name {
+					preds["gen_"+k] = kf
+				}
+			}
+			body = keepRuneSpelling("gen_"+name, p, body, f, preds)
 		}
 		if name == "isAlphaNumeric" {
 			g.p("Definition gen_%s (uni_letter uni_digit : Z -> bool) (%s : Z) : bool := %s%%Z.\n", name, p, body)
